@@ -240,16 +240,16 @@ Section Win.
       cbn [map] in A9.
       destruct (ack_first_seg tz h (mkTx s0 false) (map (fun s => mkTx s false) r) n)
         as (w1 & w2 & Ea); try assumption; try (rewrite ?A2, ?A3, ?A4; assumption); try lia.
+      + congruence.
       + rewrite Forall_map. cbn [t_seg]. rewrite A2.
         pose proof (flight_offsets lp rp ackv u r n) as Ho.
-        rewrite <- (wadd_wadd u 0 n), (wadd_0_u32 u A15) in Ho.
         specialize (Ho Fr ltac:(lia) ltac:(lia)).
         eapply Forall_impl; [|exact Ho]. intros s' Hs'. cbv beta zeta in *. lia.
       + rewrite A2 in Ea. set (tz1 := set_snd_window _ _ _ _) in Ea.
         assert (Ez' : end_of (set_net s y (map (fun h => mkSeg h []) hs ++ rest)) (other y) = ELive tz)
           by (now sysr).
         rewrite (arrive_eval c _ (other y) tz _ tz1 Ez' Ea).
-        destruct (IH _ tz1 (wadd u n) f rest) as (tz' & Ed & HS' & Hm').
+        destruct (IH (set_end (set_net s y (map (fun h => mkSeg h []) hs ++ rest)) (other y) (ELive tz1)) tz1 (wadd u n) f rest) as (tz' & Ed & HS' & Hm').
         * unfold sending. subst tz1. tcb_simpl. splits; auto; try apply wadd_u32; try lia.
           -- exists lp, rp, ackv. exact Fr.
           -- rewrite wadd_wadd. exact A19.
@@ -279,8 +279,8 @@ Section Win.
       assert (Ez' : end_of (set_net s y (map (fun h => mkSeg h []) hs ++ rest)) (other y) = ELive tz)
         by (now sysr).
       rewrite (arrive_eval c _ (other y) tz _ _ Ez' Ea).
-      destruct (IH _ (set_in_segs tz []) f rest Hdr) as (tz' & Ed & HS' & Hm').
-      + unfold sending in *. tcb_simpl. splits; auto.
+      destruct (IH (set_end (set_net s y (map (fun h => mkSeg h []) hs ++ rest)) (other y) (ELive (set_in_segs tz []))) (set_in_segs tz []) f rest Hdr) as (tz' & Ed & HS' & Hm').
+      + unfold sending in *. tcb_simpl. splits; auto; lia.
       + now sysr.
       + now sysr.
       + exists tz'. rewrite Ed, sys_collapse. splits; auto.
